@@ -1935,6 +1935,36 @@ impl<'a, E: quiver_core::effects::Effect> Compiler<'a, E> {
             if let Some(n) = narrowing.as_mut() {
                 n.disable();
             }
+            // The names the pattern would bind exist all the same - what follows in the chain is
+            // still compiled (nil flows on), and a read of such a name must resolve. Like the
+            // failure path of a live match: one local per name, filled with nil; the type is the
+            // empty type (nothing ever reads it at run time).
+            let mut names = Vec::new();
+            narrowing::collect_bound_identifiers(&pattern, &mut names);
+            names.sort();
+            names.dedup();
+            let never = self.program.never();
+            for name in names {
+                let local_index = self.local_count;
+                self.local_count += 1;
+                if let Some(scope) = self.scopes.last_mut() {
+                    scope.narrowings.variables.remove(&name);
+                    scope
+                        .narrowings
+                        .fields
+                        .retain(|(parent, _, _)| !provenance_rooted_at_variable(parent, &name));
+                    scope.bindings.insert(
+                        name,
+                        Binding::Variable {
+                            ty: never,
+                            index: local_index,
+                            provenance: Provenance::Unknown,
+                        },
+                    );
+                }
+                self.codegen.add_instruction(Instruction::Tuple(NIL));
+                self.codegen.add_instruction(Instruction::Store);
+            }
             self.codegen.add_instruction(Instruction::Pop);
             self.codegen.add_instruction(Instruction::Tuple(NIL));
             return Ok(self.program.register_type(Type::nil()));
